@@ -6,7 +6,7 @@ import (
 
 // clone builds an independent network with the same topology and the same (symbolic) weights.
 func (t *tNet) clone() *tNet {
-	c := &tNet{nSensors: t.nSensors, from: t.from, to: t.to, w: t.w}
+	c := &tNet{nSensors: t.nSensors, from: t.from, to: t.to, w: t.w, neuronsFirst: t.neuronsFirst}
 	for _, n := range t.all {
 		m := NewNNode(n.Id, n.NeuronType)
 		m.ActivationType = n.ActivationType
@@ -26,7 +26,7 @@ func (t *tNet) clone() *tNet {
 		c.all[t.to[k]].ConnectFrom(c.all[t.from[k]], t.w[k])
 	}
 	inputs := append(append([]*NNode{}, c.ins...), c.bias...)
-	c.net = NewNetwork(inputs, c.outs, c.all, 2)
+	c.net = NewNetwork(inputs, c.outs, c.listed(), 2)
 	return c
 }
 
@@ -128,6 +128,12 @@ func vc13(c tNetCfg, hist, seq int) {
 
 func VC13_Flush_Quick() {
 	vc13(tNetCfg{nIn: 1, nBias: 1, nHid: 1, nOut: 1, recurrent: true, atype: neatmath.LinearActivation, concreteW: true}, 1, 2)
+}
+
+// the network's node list names the neurons before the sensors (Genesis keeps the genome's node order, which need
+// not be grouped by role)
+func VC13_Flush_NeuronsFirst() {
+	vc13(tNetCfg{nIn: 1, nBias: 1, nHid: 1, nOut: 1, recurrent: true, atype: neatmath.LinearActivation, concreteW: true, neuronsFirst: true}, 1, 1)
 }
 func VC13_Flush_SymbolicWeights() {
 	vc13(tNetCfg{nIn: 1, nBias: 0, nHid: 1, nOut: 1, recurrent: true, atype: neatmath.LinearActivation}, 1, 1)
